@@ -196,6 +196,20 @@ thread_local! {
 
 pub const FUSE_MSG: &str = "verif-injected-fault";
 
+thread_local! {
+    // keys handed to a retain predicate, in call order (survives the unwind of a faulted call)
+    static VISITED: RefCell<Vec<u64>> = const { RefCell::new(Vec::new()) };
+}
+pub fn visited_reset() {
+    VISITED.with(|v| v.borrow_mut().clear());
+}
+pub fn visited_push(k: u64) {
+    VISITED.with(|v| v.borrow_mut().push(k));
+}
+pub fn visited_take() -> Vec<u64> {
+    VISITED.with(|v| std::mem::take(&mut *v.borrow_mut()))
+}
+
 #[inline]
 pub fn tick(kind: Cb) {
     if !FUSE_COUNTING.with(|c| c.get()) {
